@@ -141,6 +141,13 @@ def gen_inputs(ctx):
             t[i] = rng.choice(alpha)
             t[j] = rng.choice(alpha)
             out.append(("B58DecCheck", T("".join(t)), ("chk-sub2",)))
+    # long all-zero payloads (every zero byte is a leading zero): the boundary between payload and checksum must not
+    # depend on how many non-zero bytes are left (the checksum of 193 zero bytes starts with a zero byte itself)
+    for n in (range(129, 301) if not q else (129, 160, 192, 193, 194, 255, 256, 300)):
+        sz = R.b58check_enc(bytes(n))
+        out.append(("B58DecCheck", T(sz), ("chk-long-zero", n == 193)))
+        out.append(("B58DecCheck", T(sz[1:]), ("chk-long-zero-one-deleted", n == 193)))
+        out.append(("B58EncCheck", B(bytes(n)), ("enccheck-long-zero", n == 193)))
     # strings shorter than a checksum, over the alphabet
     for n in range(1, 6):
         for _ in range(10 if q else 200):
